@@ -228,6 +228,51 @@ func c15(r *rep.Run) {
 			r.Violate("panic", site, sprintf("compiling and dumping %s (prefix and infix renderings) panics in the library: %v (at %s)", progs[i].Src(), pn, site), map[string]interface{}{"prefix": progs[i].Src()})
 		}
 	})
+	// wide calls: a named call with n arguments (n around the 127-operand
+	// limit) is accepted or rejected exactly like its prefix form, and compiles
+	// to the same tree; also nested one level down and next to an infix operator
+	{
+		h := hs[0]
+		var wideN int64
+		for _, name := range []string{"add", "and", "eq", "g", "mul", "or"} {
+			for _, n := range []int{1, 2, 3, 5, 64, 125, 126, 127, 128, 129, 200} {
+				args := make([]string, n)
+				for k := range args {
+					switch {
+					case name == "and" || name == "or":
+						args[k] = []string{"true", "false"}[k%2]
+					case k%2 == 0:
+						args[k] = "a"
+					default:
+						args[k] = fmt.Sprint(k)
+					}
+				}
+				call := name + "(" + strings.Join(args, ", ") + ")"
+				pcall := "(" + name + " " + strings.Join(args, " ") + ")"
+				for shape := 0; shape < 3; shape++ {
+					isrc, psrc := call, pcall
+					switch shape {
+					case 1:
+						isrc, psrc = "f("+call+")", "(f "+pcall+")"
+					case 2:
+						isrc, psrc = call+" == 1", "(== "+pcall+" 1)"
+					}
+					pe, perr := h.Compile(h.NewConfig(vars, drive.Opt{}), psrc, 0)
+					ie, ierr := h.Compile(h.NewConfig(vars, drive.Opt{Infix: true}), isrc, 0)
+					wideN++
+					d := map[string]interface{}{"call": name, "arguments": n, "infix": trunc(isrc, 120), "prefix": trunc(psrc, 120)}
+					switch {
+					case (perr == nil) != (ierr == nil):
+						r.Violate("infix-does-not-compile", "wide"+name+fmt.Sprint(n, shape), sprintf("%s with %d arguments: the prefix form gives error %v, the infix form gives error %v", name, n, perr, ierr), d)
+					case perr == nil && eval.Dump(pe)+eval.DumpTable(pe, false) != eval.Dump(ie)+eval.DumpTable(ie, false):
+						r.Violate("infix-tree-differs", "wide"+name+fmt.Sprint(n, shape), sprintf("%s with %d arguments compiles to a different tree in infix notation", name, n), d)
+					}
+				}
+			}
+		}
+		atomic.AddInt64(&renderings, wideN)
+		r.Cov["wide_call_pairs"] = wideN
+	}
 	r.External(func() { c15Race(r) })
 	r.Cov["trees_completed"] = done
 	r.Cov["renderings"] = renderings
